@@ -739,8 +739,7 @@ def owned_shards(tier, props, known):
     out = []
     bases = [("codeA", "codeB"), ("codeA", "md"), ("codeB", "codeRes2")]
     if tier == "thorough":
-        bases += [("codeA", "codeB", "md"), ("mdAtt", "codeA"), ("raw", "codeB"), ("codeA", "codeB", "raw"),
-                  ("codeB", "md", "codeA")]
+        bases += [("codeA", "codeB", "md"), ("mdAtt", "codeA"), ("raw", "codeB"), ("codeTr", "codeL")]
     for tm in bases:
         out.append(("make_owned", "owned-" + "-".join(tm),
                     dict(templates=tm, inserts=True, **kw)))
